@@ -407,6 +407,8 @@ type evalCtx struct {
 	old   bool
 	bound map[string]SV
 	sigs  map[string]FunSig // spec functions from the prelude
+	xsigs map[string]FunSig // extra (per-evaluation) functions
+	xsyms map[string]string
 }
 
 type FunSig struct {
@@ -631,10 +633,26 @@ func (c *evalCtx) noneLike(o SV) string {
 	panic("cannot type None/nil against " + o.T)
 }
 
+func (c *evalCtx) optSort(o SV) string {
+	e := c.env.Enc()
+	if o.Ty != nil && o.Opt {
+		return "(Opt " + e.Sort(o.Ty) + ")"
+	}
+	if strings.HasPrefix(o.Sort, "(Opt") {
+		return o.Sort
+	}
+	if o.Ty != nil {
+		if s := e.Sort(o.Ty); strings.HasPrefix(s, "(Opt") {
+			return s
+		}
+	}
+	return ""
+}
+
 func (c *evalCtx) isNone(o SV) string {
 	e := c.env.Enc()
-	if o.Opt || strings.HasPrefix(o.Sort, "(Opt") {
-		return app("(_ is None)", o.T)
+	if s := c.optSort(o); s != "" {
+		return isNoneT(o.T, s)
 	}
 	if o.Ty != nil {
 		if isErrorType(o.Ty) {
@@ -646,8 +664,6 @@ func (c *evalCtx) isNone(o SV) string {
 			return eq(o.T, "iface_nil")
 		case s == "Bytes":
 			return app("bnil", o.T)
-		case strings.HasPrefix(s, "(Opt"):
-			return app("(_ is None)", o.T)
 		case s == "Int":
 			return eq(o.T, "0")
 		}
@@ -733,13 +749,16 @@ func (c *evalCtx) call(n *Node) SV {
 		return SV{T: app("val", a.T), Ty: a.Ty, Sort: s}
 	case "isSome":
 		a := c.eval(n.Args[0])
-		return SV{T: app("(_ is Some)", a.T), Sort: "Bool"}
+		return SV{T: not(c.isNone(a)), Sort: "Bool"}
 	case "isNone":
 		a := c.eval(n.Args[0])
-		return SV{T: app("(_ is None)", a.T), Sort: "Bool"}
+		return SV{T: c.isNone(a), Sort: "Bool"}
 	case "Some":
 		a := c.eval(n.Args[0])
 		return SV{T: app("Some", a.T), Ty: a.Ty, Opt: true}
+	case "arr":
+		a := c.eval(n.Args[0])
+		return SV{T: app("seq.arr", a.T)}
 	case "fst", "snd":
 		a := c.eval(n.Args[0])
 		return SV{T: app(n.Name, a.T)}
@@ -758,11 +777,18 @@ func (c *evalCtx) call(n *Node) SV {
 		}
 		args = append(args, v.T)
 	}
+	if sig, ok := c.xsigs[n.Name]; ok {
+		return SV{T: app(c.xsyms[n.Name], args...), Sort: sig.Ret, Ty: sig.RetT}
+	}
 	if sig, ok := c.sigs[n.Name]; ok {
 		if len(sig.Args) != len(args) {
 			panic(fmt.Sprintf("spec function %s expects %d args", n.Name, len(sig.Args)))
 		}
-		return SV{T: app(n.Name, args...), Sort: sig.Ret, Ty: sig.RetT}
+		t := app(n.Name, args...)
+		if sig.Ret == "Bytes" {
+			e.GroundBytes(t)
+		}
+		return SV{T: t, Sort: sig.Ret, Ty: sig.RetT}
 	}
 	panic(fmt.Sprintf("unknown spec function %q", n.Name))
 }
@@ -826,4 +852,41 @@ func stripSMTComments(s string) string {
 		b.WriteString("\n")
 	}
 	return b.String()
+}
+
+// ParsePreludeLiterals reads "; literal "text" NAME" directives.
+func ParsePreludeLiterals(text string) map[string]string {
+	out := map[string]string{}
+	for _, line := range strings.Split(text, "\n") {
+		line = strings.TrimSpace(line)
+		if !strings.HasPrefix(line, "; literal ") {
+			continue
+		}
+		rest := strings.TrimSpace(line[len("; literal "):])
+		if !strings.HasPrefix(rest, "\"") {
+			continue
+		}
+		j := strings.Index(rest[1:], "\"")
+		if j < 0 {
+			continue
+		}
+		txt := rest[1 : 1+j]
+		name := strings.TrimSpace(rest[j+2:])
+		out[txt] = name
+	}
+	return out
+}
+
+// evalSpecFns is EvalSpec with additional function symbols.
+func evalSpecFns(n *Node, env SpecEnv, sigs map[string]FunSig, bound map[string]SV, xsigs map[string]FunSig, xsyms map[string]string) (sv SV, err error) {
+	defer func() {
+		if r := recover(); r != nil {
+			err = fmt.Errorf("%v", r)
+		}
+	}()
+	c := &evalCtx{env: env, sigs: sigs, bound: bound, xsigs: xsigs, xsyms: xsyms}
+	if c.bound == nil {
+		c.bound = map[string]SV{}
+	}
+	return c.eval(n), nil
 }
